@@ -190,7 +190,7 @@ def validate_modbus_rtu_response(data: bytes, cmd: int, offset: int, value: int)
             logger.debug("Response has wrong offset: %X, expected %X.", response_offset, offset)
             return False
         response_value = int.from_bytes(data[6:8], byteorder='big', signed=True)
-        if response_value != value:
+        if response_value & 0xFFFF != value & 0xFFFF:
             logger.debug("Response has wrong value: %X, expected %X.", response_value, value)
             return False
     else:
@@ -244,7 +244,7 @@ def validate_modbus_tcp_response(data: bytes, cmd: int, offset: int, value: int)
             logger.debug("Response has wrong offset: %X, expected %X.", response_offset, offset)
             return False
         response_value = int.from_bytes(data[10:12], byteorder='big', signed=True)
-        if response_value != value:
+        if response_value & 0xFFFF != value & 0xFFFF:
             logger.debug("Response has wrong value: %X, expected %X.", response_value, value)
             return False
 
